@@ -94,6 +94,10 @@ def gen_collector(rng):
     c['save_step'] = rng.randint(1, 5)
     c['dt'] = rng.choice([1, 2, 3])
     c['t0'] = rng.choice([0, 0, 1, 3, 10]) * c['dt']
+    if rng.random() < 0.3 and c['dt'] > 1:
+        # a run continued with another time step: the times are no longer multiples of dt (the step a time
+        # belongs to is t // dt, as in the driver's bookkeeping)
+        c['t0'] += rng.randint(1, c['dt'] - 1)
     c['ncollect'] = rng.randint(1, 8)
     c['sched']['reduce_reorder'] = rng.random() < 0.7
     return c
@@ -276,6 +280,8 @@ def run_collector(case, tape):
             probes['slots_wrapped'] = 1
         if case['t0']:
             probes['nonzero_start_time'] = 1
+        if case['t0'] % dt:
+            probes['times_not_multiples_of_dt'] = 1
         return dict(probes=probes)
     M.run(P, case['sched'], rank_fn, post)
     return M.finish(extra=dict(nontrivial=P > 1))
